@@ -59,6 +59,39 @@ pub fn c_node_iter_seq<S: Src>(s: &mut S) {
 
 harness!(g_node_iter_seq, c_node_iter_seq, unwind 12);
 
+/// NATIVE REPLAY ONLY: build the unstranded Kmer5 graph of TWO reads (each <= 16 bases, from the value source), export it with
+/// to_json_rest and check that the output parses as JSON (serde_json) - the concrete witness of verus:jsonlinks::json_links_step.
+pub fn c_json_links_reads<S: Src>(s: &mut S) {
+    use crate::compression::{compress_kmers_with_hash, SimpleCompress};
+    use crate::dna_string::DnaString;
+    use crate::filter::{filter_kmers, CountFilter};
+    use crate::kmer::Kmer5;
+    let mut seqs = Vec::new();
+    let mut r = 0;
+    while r < 2 {
+        let n = s.usize();
+        s.assume(n >= 5 && n <= 16);
+        let mut read = DnaString::new();
+        let mut i = 0;
+        while i < n {
+            let b = s.u8();
+            s.assume(b < 4);
+            read.push(b);
+            i += 1;
+        }
+        seqs.push((read, Exts::empty(), 0u8));
+        r += 1;
+    }
+    let summarizer: Box<CountFilter> = Box::new(CountFilter::new(1));
+    let (index, _) = filter_kmers::<Kmer5, _, _, _, _>(&seqs, &summarizer, false, false, 4);
+    let spec = SimpleCompress::new(|a: u16, b: &u16| a.saturating_add(*b));
+    let graph = compress_kmers_with_hash(false, &spec, &index).finish_serial();
+    let mut out: Vec<u8> = Vec::new();
+    graph.to_json_rest(|d: &u16| serde_json::json!(*d), &mut out, None);
+    let text = String::from_utf8(out).unwrap();
+    chk!(s, serde_json::from_str::<serde_json::Value>(&text).is_ok(), "JSON export: the output does not parse as JSON");
+}
+
 /// NATIVE REPLAY ONLY (no Kani harness: boomphf's MPHF construction is intractable for CBMC): build the unstranded Kmer5 graph of
 /// ONE read (<= 16 bases, taken from the value source), export it as GFA, and check the link clause of C20 on the real code:
 /// every adjacency the graph reports (an edge of some node side) is listed by at least one L line, in either direction.
@@ -117,6 +150,7 @@ pub fn replay(name: &str, s: &mut crate::verif::src::RSrc) -> bool {
     match name {
         "g_node_iter_seq" => c_node_iter_seq(s),
         "g_gfa_links_read" => c_gfa_links_read(s),
+        "g_json_links_reads" => c_json_links_reads(s),
         _ => return false,
     }
     true
